@@ -41,7 +41,8 @@ CfgsLiveQ ==
 
 \* liveness: no cancellation, no budgets that could starve the run
 CfgsLive ==
-  {Mk(k, v, n, md, <<>>, Bounds(FALSE, 2, 1, 1, 1, 1, FALSE, FALSE, FALSE)) : k \in Kinds, v \in Variants, md \in Modes, n \in {2, 3}}
+  {Mk(k, v, 2, md, <<>>, Bounds(FALSE, 2, 1, 1, 1, 1, FALSE, FALSE, FALSE)) : k \in Kinds, v \in Variants, md \in Modes}
+  \cup {Mk(k, v, 3, md, <<>>, Bounds(FALSE, 1, 1, 0, 0, 1, FALSE, FALSE, FALSE)) : k \in Kinds, v \in Variants, md \in Modes}
 \* export: one line per behaviour that reaches the end of a run (recorded, single-threaded ones only)
 ExportOK ==
   (pc' = "end" /\ pc # "end" /\ ~conc' /\ cfg.rec) =>
